@@ -261,7 +261,7 @@ func main() {
 		canon := fmt.Sprintf("%s|%v|%v|%d|%s|%s", level, d, c, rp.code, rp.body, rp.enc)
 		w.Count("level:" + level)
 		w.Count("mode:" + modeName(d, c))
-		w.Add(term, js, "", canon, rp.code != 200)
+		w.Add(compact(term), js, "", canon, rp.code != 200)
 	}
 	proxyCase := func(d, c cfgval, rp reply) {
 		be := &config.Backend{Encoding: encoding.JSON, Decoder: encoding.JSONDecoder, ExtraConfig: extra(d, c)}
@@ -440,7 +440,7 @@ func main() {
 
 	// ---- client level ----
 	clientRun := func(impl string, bs []beSpec) (int, string, string, string) {
-		sc := config.ServiceConfig{Version: config.ConfigVersion, Timeout: 2 * time.Second, Host: []string{"http://127.0.0.1:8081"}}
+		sc := config.ServiceConfig{Version: config.ConfigVersion, Timeout: 30 * time.Second, Host: []string{"http://127.0.0.1:8081"}}
 		ep := &config.EndpointConfig{Endpoint: "/x", Method: "GET"}
 		for i, b := range bs {
 			ep.Backend = append(ep.Backend, &config.Backend{URLPattern: fmt.Sprintf("/b%d", i), ExtraConfig: extra(b.d, b.c)})
@@ -493,7 +493,7 @@ func main() {
 		js := map[string]interface{}{"level": "single", "impl": impl, "details": d.String(), "code_cfg": c.String(), "reply": rp.js(), "observed": oj}
 		w.Count("level:single:" + impl)
 		w.Count("mode:" + modeName(d, c))
-		w.Add(term, js, "", fmt.Sprintf("S|%s|%v|%v|%d|%s|%s", impl, d, c, rp.code, rp.body, rp.enc), rp.code != 200)
+		w.Add(compact(term), js, "", fmt.Sprintf("S|%s|%v|%v|%d|%s|%s", impl, d, c, rp.code, rp.body, rp.enc), rp.code != 200)
 	}
 	for _, impl := range []string{"Gin", "Mux"} {
 		for code := 100; code <= 599; code++ {
@@ -550,11 +550,13 @@ func main() {
 				term := emit.App("CMulti", impl, emit.List(bl), o, emit.Str(raw))
 				js := map[string]interface{}{"level": "multi", "impl": impl, "backends": bj, "observed": oj}
 				w.Count("level:multi:" + impl)
-				w.Add(term, js, "", fmt.Sprintf("M|%s|%d|%d|%d|%s", impl, n, v, failCode, fb.body), true)
+				w.Add(compact(term), js, "", fmt.Sprintf("M|%s|%d|%d|%d|%s", impl, n, v, failCode, fb.body), true)
 			}
 		}
 	}
-	w.Close("proxy level: every status 100..599 x 3 modes (thorough: x 7 bodies) + 6x4 extra_config value combinations; client level: gin and mux handlers over the default factory, single backend (quick: a third of the codes per mode + boundaries; thorough: all) and all 5^2+5^3 outcome vectors for 2..3 backends; nontrivial = status other than 200", true)
+	// ---- raw extra_config, endpoint stages, all routers, gin behind recorded errors, HEAD replies ----
+	endpointGen{w, cfg, r}.run()
+	w.Close("proxy level: every status 100..599 x 3 modes (thorough: x 7 bodies) + 6x4 extra_config value combinations; client level: gin and mux handlers over the default factory, single backend (quick: a third of the codes per mode + boundaries; thorough: all) and all 5^2+5^3 outcome vectors for 2..3 backends; raw backend extra_config maps (57 shapes: namespace absent / ill-typed, each key absent / ill-typed / both) at proxy and client level; endpoints built by proxy.NewDefaultFactory with flatmap_filter (3 harmless declarations, 5 that build no stage) and static data (8 strategies incl. unknown and ill-typed, odd declarations) over all 5^2 (5^3) outcome vectors; routers gin (0, 1, 3 c.Error entries recorded by earlier middleware; return_error_msg on/off), mux, chi, gorilla, httptreemux, negroni; HEAD backends (no body, announced length 0/27/unknown); nontrivial = some backend status other than 200", true)
 }
 
 type beSpec struct {
